@@ -71,9 +71,11 @@ EndWhy(C, hdr, e, on) ==
   IF "nohang" \in on /\ e.outcome = "hang" THEN "nohang:quiescent-with-pending-workflow"
   ELSE IF "nohang" \in on /\ e.outcome = "value" /\ DOMAIN C.live # {} THEN "nohang:returned-with-running-jobs"
   ELSE IF "nohang" \in on /\ e.outcome = "value" /\ C.started # C.ended THEN "nohang:returned-with-unsettled-jobs"
-  ELSE IF "limits" \in on /\ e.outcome = "value" /\ \E r \in ResOf(hdr) : C.lastUsed[r] # 0
+  \* when run() returns, the scheduler accounts exactly for what still-running jobs hold (normally nothing)
+  ELSE IF "limits" \in on /\ e.outcome = "value" /\ \E r \in ResOf(hdr) : C.lastUsed[r] # C.held[r]
        THEN "limits:units-not-returned"
-  ELSE IF "errors" \in on /\ e.outcome = "error" /\ <<e.etype, e.msg>> \notin C.failed
+  \* (errors raised by the scheduler itself -- unknown executor -- come from no task function)
+  ELSE IF "errors" \in on /\ e.outcome = "error" /\ e.etype # "SchedulerError" /\ <<e.etype, e.msg>> \notin C.failed
        THEN "errors:raised-error-not-produced-by-an-execution-in-this-run"
   ELSE IF "errors" \in on /\ e.outcome = "error" /\ hdr.mode = "real"
           /\ \E j \in C.failedJobs : j \notin C.ended THEN "errors:failing-job-not-recorded"
